@@ -316,7 +316,39 @@ func (m *Monitor) usage(w *World, t *state.VerifC07Tables) (out []finding) {
 
 // ---------------------------------------------------------------- (4) kind-service-names
 
-func (m *Monitor) kindNames(w *World, t *state.VerifC07Tables) (out []finding) {
+// rewrittenInPlace: of the registrations / config entries that gave (kind, name) its row BEFORE the command, at
+// least one still exists afterwards under the same key with other attributes (re-registration / overwrite).
+// Otherwise the command removed them (deregistration, config delete) and the row was left behind.
+func rewrittenInPlace(before, after *state.VerifC07Tables, kind, name string) bool {
+	if kind == "destination" {
+		for _, e := range after.Config {
+			if e.GetKind() == structs.ServiceDefaults && lower(e.GetName()) == name {
+				return true
+			}
+		}
+		return false
+	}
+	still := map[string]bool{}
+	for _, v := range after.Services {
+		still[svcKey(v.PeerName, v.Node, v.ServiceID)] = true
+	}
+	for _, v := range before.Services {
+		if !isLocal(v.PeerName) {
+			continue
+		}
+		gave := kindName(v.ServiceKind) == kind && lower(v.ServiceName) == name
+		if kind == "connect-enabled" {
+			cn, ok := connectNameOf(v)
+			gave = ok && lower(cn) == name
+		}
+		if gave && still[svcKey(v.PeerName, v.Node, v.ServiceID)] {
+			return true
+		}
+	}
+	return false
+}
+
+func (m *Monitor) kindNames(w *World, before, t *state.VerifC07Tables, op *Op) (out []finding) {
 	want := map[string]string{} // kind \0 lower(name) -> reason
 	for _, v := range t.Services {
 		if !isLocal(v.PeerName) {
@@ -348,6 +380,11 @@ func (m *Monitor) kindNames(w *World, t *state.VerifC07Tables) (out []finding) {
 			class := "instance-kind"
 			if p[0] == "connect-enabled" || p[0] == "destination" {
 				class = p[0]
+			}
+			// the recorded mechanism is "re-registration / overwrite only upserts"; a row left behind by the command
+			// that REMOVES its last justification (deregistration, config delete) is another matter
+			if singleWrite(op) && !rewrittenInPlace(before, t, p[0], p[1]) {
+				class += ":left-by-deregistration"
 			}
 			out = append(out, finding{"kind-names:stale-row:" + class, "ksn-stale/" + k, fmt.Sprintf("kind-service-names lists (%s, %s) but no local registration / config entry gives that name this kind", p[0], p[1])})
 		}
@@ -389,7 +426,26 @@ func vipsSupported(t *state.VerifC07Tables) bool {
 	return false
 }
 
-func (m *Monitor) vips(w *World, t *state.VerifC07Tables) (out []finding) {
+// keepsVip: an instance named like the service (same peer) or a resolver / router / splitter / defaults /
+// intentions config entry of that name exists (what freeServiceVirtualIP must respect)
+func keepsVip(t *state.VerifC07Tables, peer, name string) bool {
+	for _, v := range t.Services {
+		if strings.EqualFold(v.PeerName, peer) && strings.EqualFold(v.ServiceName, name) {
+			return true
+		}
+	}
+	for _, e := range t.Config {
+		switch e.GetKind() {
+		case structs.ServiceResolver, structs.ServiceRouter, structs.ServiceSplitter, structs.ServiceDefaults, structs.ServiceIntentions:
+			if strings.EqualFold(e.GetName(), name) {
+				return true
+			}
+		}
+	}
+	return false
+}
+
+func (m *Monitor) vips(w *World, t *state.VerifC07Tables, op *Op) (out []finding) {
 	byIP := map[string]string{}
 	assigned := map[string]string{} // lower(peer) \0 lower(name) -> raw offset
 	for _, r := range t.VIPs {
@@ -426,7 +482,13 @@ func (m *Monitor) vips(w *World, t *state.VerifC07Tables) (out []finding) {
 		cur, has := assigned[key]
 		switch {
 		case !has:
-			out = append(out, finding{"vip:advertised-address-has-no-assignment", "vipadv-none/" + svcKey(v.PeerName, v.Node, v.ServiceID),
+			sig := "vip:advertised-address-has-no-assignment"
+			// the recorded mechanism frees the address when NO instance is named like the service and NO config
+			// entry keeps it; losing it while one of those exists is another matter
+			if keepsVip(t, v.PeerName, cn) && (op.Kind == "dereg" || op.Kind == "cfgdel") {
+				sig += ":although-an-instance-or-config-entry-keeps-it"
+			}
+			out = append(out, finding{sig, "vipadv-none/" + svcKey(v.PeerName, v.Node, v.ServiceID),
 				fmt.Sprintf("instance %s advertises virtual IP %s for service %q, which has no virtual IP assigned", inst, a.Address, cn)})
 		case cur != off:
 			out = append(out, finding{"vip:advertised-address-differs-from-assignment", "vipadv-diff/" + svcKey(v.PeerName, v.Node, v.ServiceID),
@@ -622,6 +684,29 @@ func (m *Monitor) gateways(w *World, t *state.VerifC07Tables) (out []finding) {
 
 // ---------------------------------------------------------------- (7) mesh-topology
 
+// singleWrite: the command is not a transaction with several catalog writes (whose intermediate states cannot be
+// observed: such a command keeps the coarse signature)
+func singleWrite(op *Op) bool {
+	if op.Kind != "xtxn" {
+		return true
+	}
+	n := 0
+	for i := range op.Txn {
+		a := &op.Txn[i]
+		v := a.Verb
+		if a.Base != nil {
+			if a.Base.Fam == 'k' || a.Base.Fam == 'x' {
+				continue
+			}
+			v = a.Base.Verb
+		}
+		if v != "get" {
+			n++
+		}
+	}
+	return n <= 1
+}
+
 // removes says whether the command deregisters something (a deregistration, a rename by node ID, a
 // transaction with a delete verb): used only to NAME a missing pair (which mechanism lost it).
 func removes(before *state.VerifC07Tables, op *Op) bool {
@@ -635,12 +720,50 @@ func removes(before *state.VerifC07Tables, op *Op) bool {
 			}
 		}
 	case "xtxn":
+		// a transaction counts as a removal only when its catalog operations are all deletes (the intermediate
+		// states of a mixed transaction are not observable)
+		dels := 0
 		for i := range op.Txn {
-			v := op.Txn[i].Verb
-			if op.Txn[i].Base != nil {
-				v = op.Txn[i].Base.Verb
+			a := &op.Txn[i]
+			v := a.Verb
+			if a.Base != nil {
+				if a.Base.Fam == 'k' || a.Base.Fam == 'x' {
+					continue
+				}
+				v = a.Base.Verb
 			}
-			if strings.HasPrefix(v, "delete") {
+			switch {
+			case strings.HasPrefix(v, "delete"):
+				dels++
+			case v == "get":
+			default:
+				return false
+			}
+		}
+		return dels > 0
+	}
+	return false
+}
+
+// upstreamDropped: an instance registered before and after the command listed `up` as an upstream before, and
+// afterwards is a sidecar of `down` that no longer lists it (updateMeshTopology then deletes the pair
+// (up, NEW destination) with DeleteAll, whoever else references it)
+func upstreamDropped(before, after *state.VerifC07Tables, up, down string) bool {
+	lists := func(v *structs.ServiceNode) bool {
+		for _, u := range v.ServiceProxy.Upstreams {
+			if lower(u.DestinationName) == up {
+				return true
+			}
+		}
+		return false
+	}
+	for _, b := range before.Services {
+		if !lists(b) {
+			continue
+		}
+		for _, a := range after.Services {
+			if svcKey(a.PeerName, a.Node, a.ServiceID) == svcKey(b.PeerName, b.Node, b.ServiceID) &&
+				lower(a.ServiceProxy.DestinationServiceName) == down && !lists(a) {
 				return true
 			}
 		}
@@ -703,7 +826,7 @@ func (m *Monitor) topology(before, t *state.VerifC07Tables, op *Op) (out []findi
 				// lost by a deregistration: the pair went away with ANOTHER sidecar's registration (references lost);
 				// lost by a registration: another sidecar dropped the upstream and DeleteAll removed the shared row
 				sig = "topology:missing-pair:sidecar"
-				if !removes(before, op) {
+				if !singleWrite(op) || upstreamDropped(before, t, p[0], p[1]) {
 					sig = "topology:missing-pair:sidecar:upstream-dropped-by-another-sidecar"
 				}
 			case "imported-sidecar":
@@ -794,8 +917,8 @@ func (m *Monitor) Check(w *World, before, after *Snap, op *Op, res string) []fin
 	var fs []finding
 	fs = append(fs, orphans(t)...)
 	fs = append(fs, m.usage(w, t)...)
-	fs = append(fs, m.kindNames(w, t)...)
-	fs = append(fs, m.vips(w, t)...)
+	fs = append(fs, m.kindNames(w, &before.T, t, op)...)
+	fs = append(fs, m.vips(w, t, op)...)
 	fs = append(fs, m.gateways(w, t)...)
 	fs = append(fs, m.topology(&before.T, t, op)...)
 	// a discrepancy keeps the signature it was given when it appeared (the naming may look at the command
